@@ -844,7 +844,10 @@ fn scenario(t: &CliTrace, fault: Option<&(usize, Fault)>, o: &mut Outcome, label
             (2, _) => 47001,
             _ => 0,
         };
-        let drop_priv = run_as != 0 && is_root() && Path::new("/usr/bin/setpriv").exists();
+        let drop_priv = run_as != 0 && is_root() && Path::new("/usr/bin/setpriv").exists() && unprivileged_can_reach(&root, &bin);
+        if run_as != 0 && !drop_priv {
+            o.count("unprivileged_identity_not_available_here(ran_with_own_identity)", 1);
+        }
         let mut chain: Vec<std::ffi::OsString> = Vec::new();
         if drop_priv {
             for a in ["/usr/bin/setpriv".to_string(), format!("--reuid={run_as}"), format!("--regid={run_as}"), "--clear-groups".to_string(), "--".to_string()] {
@@ -1030,6 +1033,30 @@ fn scenario(t: &CliTrace, fault: Option<&(usize, Fault)>, o: &mut Outcome, label
         let _ = std::fs::remove_dir_all(&shm_root);
     }
     res
+}
+
+/// Whether an unprivileged account can reach what an invocation needs at all: the tool, the
+/// seam library and the scratch directory (checked once per process). Where the harness itself
+/// lives in a place other accounts may not enter (a home directory, say), every unprivileged
+/// invocation would fail for reasons that have nothing to do with the tool; such scenarios
+/// then run under the harness's own identity.
+fn unprivileged_can_reach(root: &Path, bin: &str) -> bool {
+    static REACH: std::sync::OnceLock<bool> = std::sync::OnceLock::new();
+    *REACH.get_or_init(|| {
+        let parent = root.parent().unwrap_or(root);
+        let mut need: Vec<std::ffi::OsString> = vec![bin.into()];
+        if let Ok(shim) = std::env::var("CLISIM_SHIM") {
+            need.push(shim.into());
+        }
+        let mut script = String::from("[ -d \"$1\" ] && [ -x \"$1\" ]");
+        for k in 0..need.len() {
+            script.push_str(&format!(" && [ -r \"${}\" ]", k + 2));
+        }
+        let mut c = Command::new("/usr/bin/setpriv");
+        c.args(["--reuid=65534", "--regid=65534", "--clear-groups", "--", "/bin/sh", "-c", &script, "sh"]).arg(parent).args(&need);
+        c.stdout(std::process::Stdio::null()).stderr(std::process::Stdio::null());
+        matches!(c.status(), Ok(st) if st.success())
+    })
 }
 
 fn is_root() -> bool {
